@@ -40,7 +40,11 @@ class PyPackage:
                 path = os.path.join(self.out_py, self.top, name, f"{self.kind}.py")
             if not os.path.exists(path):
                 raise ParseError(f"no generated module {path}")
-            tree = ast.parse(open(path, encoding="utf-8").read())
+            try:
+                tree = ast.parse(open(path, encoding="utf-8").read())
+            except SyntaxError as e:
+                # generated Python that does not even parse: reported as unparsed generated code (and by C08), not a crash of this check
+                raise ParseError(f"generated module {path} is not valid Python: {e}")
             self.mods[name] = {n.name: n for n in tree.body if isinstance(n, ast.ClassDef)}
         return self.mods[name]
 
